@@ -31,6 +31,7 @@ pub open spec fn spec_pint_max_cont() -> nat { 9 }
 
 /// RFC 7541 §5.1: an integer with an `n`-bit prefix at the head of `s`:
 /// `Some((bits above the prefix in the first octet, value, octets used))`; `None` = truncated or oversized.
+#[verifier::opaque]
 pub open spec fn spec_prefix_int_dec(n: nat, s: Seq<u8>) -> Option<(u8, u64, nat)> {
     if s.len() == 0 { None } else {
         let flags = (s[0] as nat / p2(n)) as u8;
@@ -96,6 +97,7 @@ pub proof fn lemma_pint_bounds(n: nat, s: Seq<u8>)
             && (k > 1 ==> spec_pint_cont(s.skip(1)) is Some && (v as nat) == p2(n) - 1 + spec_pint_cont(s.skip(1)).unwrap().0 && k == 1 + spec_pint_cont(s.skip(1)).unwrap().1),
         None => true },
 {
+    reveal(spec_prefix_int_dec);
     if s.len() > 0 {
         let i = s[0] as nat % p2(n);
         assert((s[0] as nat / p2(n)) * p2(n) <= s[0] as nat) by (nonlinear_arith) requires p2(n) > 0;
@@ -125,6 +127,7 @@ pub proof fn lemma_pint_ext(n: nat, a: Seq<u8>, x: Seq<u8>)
     requires spec_prefix_int_dec(n, a) is Some,
     ensures spec_prefix_int_dec(n, a + x) == spec_prefix_int_dec(n, a),
 {
+    reveal(spec_prefix_int_dec);
     assert((a + x)[0] == a[0]);
     assert((a + x).skip(1) =~= a.skip(1) + x);
     if a[0] as nat % p2(n) >= p2(n) - 1 { lemma_pint_cont_ext(a.skip(1), x); }
@@ -166,6 +169,7 @@ pub proof fn lemma_pint_roundtrip(n: nat, flags: u8, v: u64)
     ensures spec_prefix_int_dec(n, spec_prefix_int_enc(n, flags, v)) == Some((flags, v, spec_prefix_int_enc(n, flags, v).len())),
         1 <= spec_prefix_int_enc(n, flags, v).len() <= 10,
 {
+    reveal(spec_prefix_int_dec);
     let e = spec_prefix_int_enc(n, flags, v);
     let p = p2(n);
     if (v as nat) < p - 1 {
@@ -198,6 +202,7 @@ pub proof fn axiom_huff_len(data: Seq<u8>)
 
 /// RFC 7541 §5.2: `H | String Length (n+) | String Data` at the head of `s`, where the length has an `n`-bit prefix.
 /// `Some((bits above H in the first octet, the string, octets used))`.
+#[verifier::opaque]
 pub open spec fn spec_string_literal(n: nat, s: Seq<u8>) -> Option<(u8, Seq<u8>, nat)> {
     match spec_prefix_int_dec(n, s) {
         None => None,
@@ -221,6 +226,7 @@ pub proof fn lemma_string_bounds(n: nat, s: Seq<u8>)
         Some((f, v, k)) => 1 <= k <= s.len() && v.len() <= 2 * (k - 1) && (f as nat) == s[0] as nat / (2 * p2(n)),
         None => true },
 {
+    reveal(spec_string_literal);
     lemma_pint_bounds(n, s);
     match spec_prefix_int_dec(n, s) {
         Some((f, len, k)) => {
@@ -238,6 +244,7 @@ pub proof fn lemma_string_ext(n: nat, a: Seq<u8>, x: Seq<u8>)
     requires 1 <= n <= 7, spec_string_literal(n, a) is Some,
     ensures spec_string_literal(n, a + x) == spec_string_literal(n, a),
 {
+    reveal(spec_string_literal);
     lemma_pint_ext(n, a, x);
     lemma_pint_bounds(n, a);
     let (f, len, k) = spec_prefix_int_dec(n, a).unwrap();
@@ -248,6 +255,7 @@ pub proof fn lemma_string_roundtrip(n: nat, flags: u8, v: Seq<u8>)
     ensures spec_string_literal(n, spec_string_enc(n, flags, v)) == Some((flags, v, spec_string_enc(n, flags, v).len())),
         spec_string_enc(n, flags, v).len() >= 1,
 {
+    reveal(spec_string_literal);
     let h = spec_huff_enc(v);
     let f2 = (flags * 2 + 1) as u8;
     let p = p2(n);
@@ -316,6 +324,7 @@ pub open spec fn spec_literal(s: Seq<u8>) -> Option<(SpecRepr, nat)> {
 }
 /// The representation at the head of `s`, chosen by the leading bits of its first octet (§4.5.2 – §4.5.6; the five
 /// patterns 1, 01, 001, 0001, 0000 cover every octet).
+#[verifier::opaque]
 pub open spec fn spec_repr(s: Seq<u8>) -> Option<(SpecRepr, nat)> {
     if s.len() == 0 { None }
     else if s[0] >= 128 { spec_indexed(s) }
@@ -417,6 +426,7 @@ pub open spec fn spec_field_section(s: Seq<u8>, max: nat) -> SpecSection {
 pub proof fn lemma_repr_bounds(s: Seq<u8>)
     ensures match spec_repr(s) { Some((_, k)) => 1 <= k <= s.len(), None => true },
 {
+    reveal(spec_repr);
     if s.len() > 0 {
         lemma_pint_bounds(6, s);
         lemma_pint_bounds(4, s);
@@ -425,11 +435,31 @@ pub proof fn lemma_repr_bounds(s: Seq<u8>)
         match spec_string_literal(3, s) { Some((_, _, k1)) => { lemma_string_bounds(7, s.skip(k1 as int)); } None => {} }
     }
 }
+/// `spec_field_line` by the first octet, in terms of the three per-representation parsers (what the code's dispatcher does).
+pub proof fn lemma_line_cases(s: Seq<u8>)
+    requires s.len() > 0,
+    ensures spec_field_line(s) == (
+        if s[0] >= 128 {
+            match spec_indexed(s) {
+                Some((SpecRepr::Indexed { is_static: true, index }, k)) => match spec_static(index) { Some(f) => Some((f, k)), None => None },
+                _ => None }
+        } else if s[0] >= 64 {
+            match spec_name_ref(s) {
+                Some((SpecRepr::NameRef { is_static: true, index, value }, k)) => match spec_static(index) { Some(f) => Some(((f.0, value), k)), None => None },
+                _ => None }
+        } else if s[0] >= 32 {
+            match spec_literal(s) { Some((SpecRepr::Literal { name, value }, k)) => Some(((name, value), k)), _ => None }
+        } else { None }),
+{
+    reveal(spec_field_line);
+    reveal(spec_repr);
+}
 /// A line of k octets yields a field of RFC 9114 size at most 140·k: 32 + a static entry (≤ 100) + at most 2 decoded
 /// octets per encoded octet (shortest Huffman code: 5 bits).
 pub proof fn lemma_line_size_bound(s: Seq<u8>)
     ensures match spec_field_line(s) { Some((f, k)) => 1 <= k <= s.len() && spec_field_size(f) <= 140 * k, None => true },
 {
+    reveal(spec_repr);
     reveal(spec_field_line);
     lemma_repr_bounds(s);
     if s.len() > 0 {
@@ -449,6 +479,7 @@ pub proof fn lemma_repr_ext(a: Seq<u8>, x: Seq<u8>)
     requires spec_repr(a) is Some,
     ensures spec_repr(a + x) == spec_repr(a),
 {
+    reveal(spec_repr);
     assert((a + x)[0] == a[0]);
     if a[0] >= 128 { lemma_pint_ext(6, a, x); }
     else if a[0] >= 64 {
@@ -503,6 +534,7 @@ pub proof fn lemma_enc_indexed(index: u64, f: SpecField)
     requires spec_static(index as nat) == Some(f),
     ensures ({ let e = spec_prefix_int_enc(6, 3, index); spec_field_line(e) == Some((f, e.len())) && e.len() > 0 }),
 {
+    reveal(spec_repr);
     reveal(spec_field_line);
     axiom_static(index as nat);
     let e = spec_prefix_int_enc(6, 3, index);
@@ -514,6 +546,7 @@ pub proof fn lemma_enc_name_ref(index: u64, name: Seq<u8>, old_value: Seq<u8>, v
     requires spec_static(index as nat) == Some((name, old_value)), spec_huff_enc(value).len() < 0x8000_0000_0000_0000,
     ensures ({ let e = spec_prefix_int_enc(4, 5, index) + spec_string_enc(7, 0, value); spec_field_line(e) == Some(((name, value), e.len())) && e.len() > 0 }),
 {
+    reveal(spec_repr);
     reveal(spec_field_line);
     axiom_static(index as nat);
     let e1 = spec_prefix_int_enc(4, 5, index);
@@ -530,6 +563,7 @@ pub proof fn lemma_enc_literal(name: Seq<u8>, value: Seq<u8>)
     requires spec_huff_enc(name).len() < 0x8000_0000_0000_0000, spec_huff_enc(value).len() < 0x8000_0000_0000_0000,
     ensures ({ let e = spec_string_enc(3, 2, name) + spec_string_enc(7, 0, value); spec_field_line(e) == Some(((name, value), e.len())) && e.len() > 0 }),
 {
+    reveal(spec_repr);
     reveal(spec_field_line);
     let e1 = spec_string_enc(3, 2, name);
     let e2 = spec_string_enc(7, 0, value);
@@ -546,6 +580,7 @@ pub proof fn lemma_enc_prefix(body: Seq<u8>)
     ensures spec_section_prefix(spec_prefix_int_enc(8, 0, 0) + spec_prefix_int_enc(7, 0, 0) + body) == Some(2nat),
         (spec_prefix_int_enc(8, 0, 0) + spec_prefix_int_enc(7, 0, 0) + body).skip(2) == body,
 {
+    reveal(spec_prefix_int_dec);
     let e = spec_prefix_int_enc(8, 0, 0) + spec_prefix_int_enc(7, 0, 0) + body;
     assert(p2(8) == 256 && p2(7) == 128);
     assert(e[0] == 0 && e[1] == 0);
